@@ -71,3 +71,6 @@ addfile("F37","C14","fixed","io-contract:h.readat",
 addfile("F38","C03","fixed","failed-write-corrupts-content",
     "one transient drive read error while the first Write on a handle restores the file's existing content: Write returns the error, but the half-restored (here: empty) write buffer stayed attached to the handle and Close archived it - the file's 13 bytes were replaced by an empty file although the only call that touched it had failed (first noticed as a side remark in a sub-agent's report)",
     commit="a write whose restore of the existing content fails no longer leaves")
+addfile("KF8","C03","open","content-never-written",
+    "a write call that fails after part of its record has reached the tape (drive write error, or a write-cache read error during the copy pass) leaves that torn record where it is; the next successful call appends its record directly behind it, so the torn header's announced content covers the head of the next record: the entry then reads those bytes (here the single byte '/') without any error - same design gap as KF4 (nothing makes a torn record harmless before appending), reached inside one session",
+    relax="torn-record-append")
